@@ -71,6 +71,7 @@ class Builder:
         self.cur = []
         s = session(greeting, [], ip6=self.ip6, **kw)
         s["reactions"] = self.cur
+        s["addr_off"] = self.rng.choice([0, 1, 1, 5])
         self.sessions.append(s)
         return len(self.sessions) - 1
 
